@@ -231,24 +231,33 @@ func processIssueInTree(issue ZodIssue, tree *ZodErrorTree, mapper func(ZodIssue
 	}
 
 	current := tree
+	// property moves to the child filed under key, creating it when missing.
+	property := func(key string) {
+		if current.Properties == nil {
+			current.Properties = make(map[string]*ZodErrorTree)
+		}
+		if current.Properties[key] == nil {
+			current.Properties[key] = &ZodErrorTree{
+				Errors:     []string{},
+				Properties: make(map[string]*ZodErrorTree),
+				Items:      []*ZodErrorTree{},
+			}
+		}
+		current = current.Properties[key]
+	}
 	for i, pathElement := range issue.Path {
 		isLast := i == len(issue.Path)-1
 
 		switch element := pathElement.(type) {
 		case string:
-			if current.Properties == nil {
-				current.Properties = make(map[string]*ZodErrorTree)
-			}
-			if current.Properties[element] == nil {
-				current.Properties[element] = &ZodErrorTree{
-					Errors:     []string{},
-					Properties: make(map[string]*ZodErrorTree),
-					Items:      []*ZodErrorTree{},
-				}
-			}
-			current = current.Properties[element]
+			property(element)
 
 		case int:
+			if element < 0 {
+				// not an index (a negative map key): filed like any other key
+				property(fmt.Sprintf("%v", element))
+				break
+			}
 			for len(current.Items) <= element {
 				current.Items = append(current.Items, &ZodErrorTree{
 					Errors:     []string{},
@@ -257,6 +266,11 @@ func processIssueInTree(issue ZodIssue, tree *ZodErrorTree, mapper func(ZodIssue
 				})
 			}
 			current = current.Items[element]
+
+		default:
+			// Map keys and Set elements of any comparable type end up in paths:
+			// they are filed under their text, the key FlattenError and FormatError use.
+			property(fmt.Sprintf("%v", element))
 		}
 
 		if isLast {
